@@ -11,6 +11,9 @@ package main
 //   router  a router assembled as main.go does (Use order from main.go; common routes, writer routes through
 //           plugin.RegisterRoutes with a fake service registry, reader routes with a fake IDBRegistry), every
 //           route × method × header class × Accept-Encoding × Origin, vs Router.serve over Gen.Routes.routes
+//   binary  the real `main` built from the repository (MODE=reader), raw HTTP to every common+reader route
+//   portenv, config   the configuration path (c20config.go): the real portEnv through a build overlay; the real binary
+//           started once per configuration (config file × environment), incl. other MODEs and every listener it opens
 // Oracle (no model involved): a request whose Authorization header is not "Basic " + a string that Go's
 // StdEncoding decodes WITHOUT error to login:pass must get 401/400, must not reach a handler and must leave the
 // back-end call log empty; one that is must reach a handler.
